@@ -66,10 +66,8 @@ class FilterRun:
         return f"{rule}:{inst}" if self._prefix else inst
 
     def need(self, cond, msg):
-        # an anchor / non-vacuity requirement of the included property: enforced by that property's own check; here it
-        # only matters when all of its clauses are included
-        if not cond and self._rules is None and self._only is None:
-            self._run.need(cond, msg)
+        # an anchor requirement of the included property: without it the included clauses cannot be evaluated
+        self._run.need(cond, msg)
 
     def ok(self, rule, instance, detail=""):
         if self._wanted(rule, instance):
